@@ -546,3 +546,11 @@ def run(ctx):
     # which thread is "the blamed one" is decided by tid, per entry (same rule instance as C05/branch-select)
     from rules import c05 as _c05bs
     _c05bs.rule_branch_select(ctx, R="C20/crash-context-for-blamed-tid")
+    # words are found relative to the copy: a shortened copy must start on a word boundary of the target's stack (same rule instance as
+    # C06/who-is-shortened)
+    from rules import c06 as _c06w
+    _c06w.rule_who_is_shortened(ctx, R="C20/who-is-shortened")
+    # "this is reported as a soft error": the report reaches the dump only if every error in the list can be serialised (same rule instances as
+    # C11/serialisable, C11/serialisers-total)
+    from rules import c11 as _c11s
+    _c11s.rule_soft_errors_serialisable(ctx, R="C20/soft-error-serialisable")
